@@ -671,10 +671,11 @@ class RandomProxy:
             raise Unsupported("np.random.choice over != 2 values")
         o = s.outcome("choice")
         if p is not None:
-            # contract: an outcome of probability 0 is never drawn
+            # contract: an outcome of probability 0 is never drawn; "0" includes float rounding noise: an outcome whose
+            # probability is below 1e-12 has no practical chance to be drawn and is excluded as well
             p0, p1 = p[0], p[1]
-            s.assume(sym.b_implies(o == 0, p0 > 0))
-            s.assume(sym.b_implies(o == 1, p1 > 0))
+            s.assume(sym.b_implies(o == 0, p0 > 1e-12))
+            s.assume(sym.b_implies(o == 1, p1 > 1e-12))
         if vals == [0, 1]:
             return o
         return sym.b_ite(o == 1, vals[1], vals[0])
